@@ -141,6 +141,18 @@ SAFE_BUILTINS = {
 }
 
 
+def _host_modules():
+    import functools
+    import itertools
+    import re
+    import textwrap
+
+    return (re, textwrap, itertools, functools)
+
+
+HOST_MODULES = _host_modules()
+
+
 class HostInterp:
     def __init__(self, cls_methods, self_obj, lookup_table, subtler_token="SUBTLER", globals_env=None, classes=None, functions=None):
         self.classes = classes or {}      # name -> {method name -> FunctionDef}: classes whose objects are interpreted
@@ -333,9 +345,8 @@ class HostInterp:
             if isinstance(obj, (list, str, tuple, set, dict)) and not e.attr.startswith("_"):
                 return getattr(obj, e.attr)
             import re as _re
-            import textwrap as _tw
 
-            if obj in (_re, _tw) and not e.attr.startswith("_"):
+            if any(obj is m for m in HOST_MODULES) and not e.attr.startswith("_"):
                 return getattr(obj, e.attr)
             if isinstance(obj, _re.Match):
                 return getattr(obj, e.attr)
@@ -544,7 +555,7 @@ class HostInterp:
         import re as _re
         import textwrap as _tw
 
-        if fn in SAFE_BUILTINS.values() or (callable(fn) and getattr(fn, "__self__", None) is not None and isinstance(fn.__self__, (list, str, tuple, set, dict, _re.Match))) or getattr(fn, "__module__", None) in ("re", "textwrap"):
+        if fn in SAFE_BUILTINS.values() or (callable(fn) and getattr(fn, "__self__", None) is not None and isinstance(fn.__self__, (list, str, tuple, set, dict, _re.Match))) or getattr(fn, "__module__", None) in ("re", "textwrap", "itertools", "functools"):
             try:
                 return fn(*args, **kwargs)
             except (TypeError, ValueError, KeyError, IndexError) as ex:
